@@ -375,19 +375,31 @@ def Tree.tlDescend : Tree → Nat → Nat → Option Nat → Nat → Tree → Op
       | .nil => (v', rs', rst)
       | .node .. => r.tlDescend size ((sb <<< 1) % U64) v' rs' rst
 
-def tmalloc_large (h : Heap) (size : Nat) : M (Option (Heap × Nat)) := do
+/-- start of the search of `tmalloc_large` in the bin `size` indexes -/
+def tlStart (root : Tree) (size idx rsize0 : Nat) : Option Nat × Nat × Tree :=
+  match root with
+  | .nil => (none, rsize0, Tree.nil)
+  | .node .. => root.tlDescend size ((size <<< leftshift_for_tree_index idx) % U64) none rsize0 .nil
+
+/-- "set t to the root of the next non-empty treebin" (only when the descent found nothing) -/
+def tlNext (h : Heap) (idx : Nat) (t : Tree) (v : Option Nat) : M Tree :=
+  match t, v with
+  | .nil, none =>
+    let leftbits := left_bits ((1 <<< idx) % U32) &&& treemap h
+    if leftbits ≠ 0 then getTree h (trailing_zeros32 (least_bit leftbits)) else pure Tree.nil
+  | _, _ => pure t
+
+/-- the search of `tmalloc_large`: the best-fitting chunk (if any) and its excess over `size` -/
+def tl_search (h : Heap) (size : Nat) : M (Option Nat × Nat) := do
   let rsize0 := (U64 - 1 - size) + 1
   let idx := compute_tree_index size
   let root ← getTree h idx
-  let (v, rsize, t) := match root with
-    | .nil => ((none : Option Nat), rsize0, Tree.nil)
-    | .node .. => root.tlDescend size ((size <<< leftshift_for_tree_index idx) % U64) none rsize0 .nil
-  let t ← match t, v with
-    | .nil, none =>
-      let leftbits := left_bits ((1 <<< idx) % U32) &&& treemap h
-      if leftbits ≠ 0 then getTree h (trailing_zeros32 (least_bit leftbits)) else pure Tree.nil
-    | _, _ => pure t
-  let (v, rsize) := t.lmBest size v rsize
+  let d := tlStart root size idx rsize0
+  let t ← tlNext h idx d.2.2 d.1
+  pure (t.lmBest size d.1 d.2.1)
+
+def tmalloc_large (h : Heap) (size : Nat) : M (Option (Heap × Nat)) := do
+  let (v, rsize) ← tl_search h size
   match v with
   | none => pure none
   | some vc =>
